@@ -64,6 +64,10 @@ ASSUMPTIONS = [
     "the envs ignore unknown keys)",
     "OP: instances whose forced first moves (nodes 1..W) are not all feasible are excluded (start rule F17 belongs to "
     "C12); instances where the start rule samples feasible (possibly repeated) starts are kept",
+    "not in the domain (vf.policies zoo entries am/mdcpdp, am/dpp, am/mdpp): BeamSearch forces env.select_start_nodes "
+    "(nodes 1..W) as first moves, which the MDCPDP reset mask (depot 0 only) never admits - every case would be "
+    "'forced_start_infeasible(C12)'; AM on DPP/MDPP cannot decode in the [batch, beams] layout unless B == W "
+    "(crash in DPPContext, defect candidate gated in C11)",
 ]
 TIME_CAP = {"quick": 300, "thorough": 2400}
 
